@@ -143,6 +143,14 @@ func buildHostTree(kind string) (*hostTree, error) {
 		copy(frag[b*4096:], patternBytes(b, 4096))
 	}
 	add("frag.bin", frag)
+	// 130 data blocks of 4 KiB, one every 64 KiB: far more hole than data, and more extents than fit into the inode, so the
+	// extent tree has an index root whose entries lie further apart than the file has allocated blocks
+	stride := make([]byte, 130*16*4096+300)
+	for b := 0; b < 130; b++ {
+		copy(stride[b*16*4096:], patternBytes(100+b, 4096))
+	}
+	copy(stride[130*16*4096:], patternBytes(99, 300))
+	add("stride.bin", stride)
 	sp := make([]byte, 1<<20+77)
 	copy(sp[1<<20:], "tail-after-a-one-megabyte-hole")
 	add("sparse.bin", sp)
@@ -530,6 +538,8 @@ func fileClass(p string) string {
 		return "fragmented"
 	case strings.HasPrefix(p, "sparse"):
 		return "sparse"
+	case strings.HasPrefix(p, "stride"):
+		return "strided-sparse"
 	}
 	return "plain"
 }
@@ -602,7 +612,7 @@ func C20(r *ev.Run) {
 	r.Set("evaluations", int64(done))
 	r.Set("distinct_nontrivial", int64(ok.n()))
 	r.Set("distinct_outcomes", outcomes.snapshot())
-	r.Set("rule", "images built by the reference tools: a host tree (400-entry directory turned into a hash tree by e2fsck -fD, a file of 200 alternating data/hole blocks, a file behind a 1 MiB hole, plain files, symlinks of 59/60/200 bytes and a relative one, in-inode and block xattrs via debugfs ea_set, odd modes/owners with different upper halves/post-2038 times via debugfs sif; plus a 2000-entry directory of 180-character names whose hash tree has an interior level; plus a tree with a sparse file of 4 GiB+40 KiB (data at 0 and just beyond 4 GiB, read through probe windows in and around the holes) and a 200-entry directory from which a run of 80 neighbouring entries was removed with debugfs rm after indexing, hashed and linear; plus a contiguous 32 MiB file that e2fsck -E bmap2extent turns into one extent of the maximum length 32768) written by mke2fs -d for block size {1K,2K,4K} x inode size {128,256} x every subset (quick: all-on, all-off, single-on, single-off) of {64bit, flex_bg, metadata_csum, dir_index, huge_file, sparse_super2, has_journal} plus ext2-style images without extents; each image verified clean with e2fsck first. The library must refuse the image, return an error for what it cannot read, or report exactly what was put in: tree, bytes (holes as zeros), sizes, modes, owners, times, link targets, xattrs. non-trivial = distinct images that mke2fs accepted and that the library opened, refused or walked")
+	r.Set("rule", "images built by the reference tools: a host tree (400-entry directory turned into a hash tree by e2fsck -fD, a file of 200 alternating data/hole blocks, a file of 130 data blocks at a stride of 16 blocks (index root, holes much wider than the data), a file behind a 1 MiB hole, plain files, symlinks of 59/60/200 bytes and a relative one, in-inode and block xattrs via debugfs ea_set, odd modes/owners with different upper halves/post-2038 times via debugfs sif; plus a 2000-entry directory of 180-character names whose hash tree has an interior level; plus a tree with a sparse file of 4 GiB+40 KiB (data at 0 and just beyond 4 GiB, read through probe windows in and around the holes) and a 200-entry directory from which a run of 80 neighbouring entries was removed with debugfs rm after indexing, hashed and linear; plus a contiguous 32 MiB file that e2fsck -E bmap2extent turns into one extent of the maximum length 32768) written by mke2fs -d for block size {1K,2K,4K} x inode size {128,256} x every subset (quick: all-on, all-off, single-on, single-off) of {64bit, flex_bg, metadata_csum, dir_index, huge_file, sparse_super2, has_journal} plus ext2-style images without extents; each image verified clean with e2fsck first. The library must refuse the image, return an error for what it cannot read, or report exactly what was put in: tree, bytes (holes as zeros), sizes, modes, owners, times, link targets, xattrs. non-trivial = distinct images that mke2fs accepted and that the library opened, refused or walked")
 	r.Set("exhaustive", done == len(cases))
 	r.Assume("e2fsprogs 1.47.0 builds the reference images; a refusal or an error is always acceptable, only silent wrong data is a violation")
 }
